@@ -10,6 +10,7 @@ package main
 // real tree: it measures whether each rule is live on today's code.
 
 import (
+	"bytes"
 	"fmt"
 	"go/ast"
 	"go/parser"
@@ -594,4 +595,89 @@ func runSensitivitySweep(p *Program, prop *Property, funcs map[string]bool) map[
 		"sensitivity_unnoticed":    blind,
 		"sensitivity_noticed_list": seenList,
 	}
+}
+
+// withOverlay builds a Program in which the given files have new contents,
+// re-checking the packages that contain them and every module package that
+// depends on one of those - in memory, with go/types, against the type packages
+// already loaded (no `go list`, no compilation).
+func (p *Program) withOverlay(files map[string][]byte) (*Program, error) {
+	parsed := map[string]*ast.File{}
+	dirty := map[string]bool{}
+	for _, pk := range p.All {
+		for _, f := range pk.Syntax {
+			name := p.Fset.File(f.Pos()).Name()
+			src, ok := files[name]
+			if !ok {
+				continue
+			}
+			if old, has := p.overlay[name]; has && bytes.Equal(old, src) {
+				continue
+			}
+			nf, err := parser.ParseFile(p.Fset, name, src, parser.ParseComments|parser.SkipObjectResolution)
+			if err != nil {
+				return nil, fmt.Errorf("%s does not parse: %v", name, err)
+			}
+			parsed[name] = nf
+			dirty[pk.PkgPath] = true
+		}
+	}
+	imp := mapImporter(p.allTypePackages())
+	ov := map[string][]byte{}
+	for k, v := range p.overlay {
+		ov[k] = v
+	}
+	for k, v := range files {
+		ov[k] = v
+	}
+	np := &Program{Dir: p.Dir, Config: p.Config, Fset: p.Fset, Pkgs: map[string]*packages.Package{}, overlay: ov}
+	for _, pk := range p.moduleOrder() {
+		need := dirty[pk.PkgPath]
+		for _, i := range pk.Types.Imports() {
+			if dirty[i.Path()] {
+				need = true
+			}
+		}
+		if !need {
+			np.Pkgs[pk.PkgPath] = pk
+			np.All = append(np.All, pk)
+			continue
+		}
+		dirty[pk.PkgPath] = true
+		fs := append([]*ast.File{}, pk.Syntax...)
+		for i, f := range fs {
+			if nf := parsed[p.Fset.File(f.Pos()).Name()]; nf != nil {
+				fs[i] = nf
+			}
+		}
+		info := &types.Info{
+			Types:      map[ast.Expr]types.TypeAndValue{},
+			Defs:       map[*ast.Ident]types.Object{},
+			Uses:       map[*ast.Ident]types.Object{},
+			Implicits:  map[ast.Node]types.Object{},
+			Selections: map[*ast.SelectorExpr]*types.Selection{},
+			Scopes:     map[ast.Node]*types.Scope{},
+			Instances:  map[*ast.Ident]types.Instance{},
+		}
+		var errs []string
+		conf := types.Config{Importer: imp, Sizes: pk.TypesSizes, Error: func(e error) {
+			if len(errs) < 4 {
+				errs = append(errs, e.Error())
+			}
+		}}
+		if pk.Module != nil && pk.Module.GoVersion != "" {
+			conf.GoVersion = "go" + pk.Module.GoVersion
+		}
+		tp, _ := conf.Check(pk.PkgPath, p.Fset, fs, info)
+		if len(errs) > 0 {
+			return nil, fmt.Errorf("package %s: %s", pk.PkgPath, strings.Join(errs, " | "))
+		}
+		imp[pk.PkgPath] = tp
+		npk := &packages.Package{ID: pk.ID, Name: pk.Name, PkgPath: pk.PkgPath, Syntax: fs, Types: tp, TypesInfo: info, TypesSizes: pk.TypesSizes, Module: pk.Module}
+		np.Pkgs[pk.PkgPath] = npk
+		np.All = append(np.All, npk)
+	}
+	sort.Slice(np.All, func(i, j int) bool { return np.All[i].PkgPath < np.All[j].PkgPath })
+	np.index()
+	return np, nil
 }
